@@ -494,8 +494,9 @@ def get_first_job_input_volume(
     padding: NpuPadding,
     block_offset: int,
 ):
-    # Get ifm block size (jobs are invisibly decomposed into subkernels)
-    ifm_block = arch.get_ifm_block_size(ifm_block_depth, ofm_block, kernel, arch.ofm_block_max)
+    # Get ifm block size (jobs are invisibly decomposed into subkernels, so the first job reads the whole kernel)
+    full_kernel = Block(kernel.area_width(), kernel.area_height(), 65536)
+    ifm_block = arch.get_ifm_block_size(ifm_block_depth, ofm_block, kernel, full_kernel)
     ifm_depth_blocks = numeric_util.round_up_divide(ifm.size().depth, ifm_block_depth)
 
     # Which OFM block are we calculating
